@@ -41,11 +41,11 @@ func run(c *vf.Ctx) {
 			defer pprof.StopCPUProfile()
 		}
 	}
+	go watchdog(c)
 	e := newEnv(c)
 	if e == nil {
 		return
 	}
-	go watchdog(c)
 	phase := map[string]float64{}
 	t0 := time.Now()
 	e.shortStrings()
